@@ -262,6 +262,13 @@ class Ctx:
             for line in out.splitlines():
                 if line:
                     self.feed_line(line, harness=exe)
+            if p.returncode != 0 and "[driver] killed after" in err:
+                # the driver's own wall-clock limit ended this process (slow machine / remaining tier time used up): that is a cap of
+                # the enumeration, never a verdict - hangs of the code under test are detected inside the harnesses (scheduler watchdog,
+                # benum::run_isolated with its re-run-alone rule), not by this limit
+                self.bound("%s %s: stopped by the driver's time limit" % (name, " ".join(a for a in args if not a.startswith("/"))[:80]), False)
+                self.notes.append("driver time limit hit for %s shard %d (%s)" % (name, i, " ".join(base[1:])[:200]))
+                continue
             if p.returncode != 0 and not allow_fail and "WARNING: ThreadSanitizer:" in err:
                 # free-running TSan companion: every distinct SUMMARY line is a finding class
                 import re
